@@ -25,6 +25,17 @@ union U = A | B
 type C { c: Int  d: Int  m: Int }
 `
 
+// smallSDLBefore: the schema "before the change": same type names; A lacks o and p but has legacy(kind: Int), B has
+// no m, C's fields are of other types, Query.f takes a String and has no r, Query has an extra field
+const smallSDLBefore = `
+type Query { a: A  u: U  i: I  s: Int  f(x: String): Int  gone: C }
+interface I { n: String  k: Int  zz: Int }
+type A implements I { n: String  k: Int  zz: Int  legacy(kind: Int): Int }
+type B implements I { n: String  k: Int  zz: Int  o: A  p: C }
+union U = A | B | C
+type C { c: String  d: [Int]  m: C  zz: Int }
+`
+
 type smallField struct {
 	name, typ string // typ "" = leaf
 }
